@@ -99,6 +99,15 @@ class Ctx(object):
         self.t0 = time.time()
 
     def rule(self, rule_id, desc, floor=0, oracle=''):
+        owner = rule_id.split('-', 1)[0]
+        if owner != self.prop and '-' in rule_id:
+            # a rule group of another property run for this one (ctx.shared): the mechanism it decides is a necessary
+            # condition of both; the finding is reported under this property's own rule id
+            new = '%s-%s' % (self.prop, rule_id.split('-', 1)[1])
+            if any(r_.id == new for r_ in self.rules):
+                new += '.' + owner
+            desc = '%s [rule %s, shared]' % (desc, rule_id)
+            rule_id = new
         r = Rule(self, rule_id, desc, floor, oracle)
         self.rules.append(r)
         return r
@@ -115,6 +124,10 @@ class Ctx(object):
         except AnalysisError as e:
             self.analysis_errors.append('%s: %s' % (getattr(fn, '__name__', 'rule'), e))
             return None
+
+    def shared(self, fn, *args, **kwargs):
+        '''run a rule group that is defined with another property (its rule ids are re-labelled, see rule())'''
+        return self.guard(fn, *args, **kwargs)
 
     def assume(self, text):
         if text not in self.assumptions:
